@@ -34,7 +34,7 @@ pub fn load_env(prop: Prop) -> Result<Env, String> {
     } else {
         None
     };
-    Ok(Env { plugin, plugin_path: path })
+    Ok(Env { plugin, plugin_path: path, lean: false })
 }
 
 pub fn runs_for(prop: Prop, tier: Tier) -> u64 {
@@ -967,9 +967,9 @@ pub fn dump_main(prop: Prop, tier: Tier, seed: u64, run: u64, file: &str) -> i32
 
 /// in-process batch without child processes, plugin or files: the form in which the core
 /// scenarios run under Miri (`cargo +nightly miri run -- inproc <ID> <tier> <seed> <start> <n>`)
-pub fn inproc_main(prop: Prop, tier: Tier, seed: u64, start: u64, n: u64) -> i32 {
+pub fn inproc_main(prop: Prop, tier: Tier, seed: u64, start: u64, n: u64, lean: bool) -> i32 {
     runner::install_hook();
-    let env = Env { plugin: None, plugin_path: String::new() };
+    let env = Env { plugin: None, plugin_path: String::new(), lean };
     let mut stats = Stats::default();
     let mut bad = 0;
     for i in start..start + n {
